@@ -29,6 +29,10 @@ pub(crate) enum Ev {
     BpOff,
     /// an oversized ICMP echo request arrives (as fragments); reply needs 2 (class 1) / 3 (class 2) fragments
     Echo(u8),
+    /// the same from the second pre-resolved neighbour B (10.0.0.3 / 02:..:03); the reply goes to
+    /// B. Ethernet configurations only: there the reply needs another hardware destination than
+    /// whatever is pending in the fragmenter
+    EchoB(u8),
     /// lift back-pressure, poll until nothing more happens, run the end-of-run oracle; terminal
     Quiesce,
 }
@@ -141,7 +145,7 @@ impl S2 {
     fn model_string(&self) -> String {
         let mut s = String::new();
         for e in &self.tr.exps {
-            s.push_str(&format!("{}:{}:{:?}:{}:{:?};", e.label, e.started() as u8, e.cov, e.corrupt as u8, e.clobbered_by));
+            s.push_str(&format!("{}>{}:{}:{:?}:{}:{:?};", e.label, e.dst[3], e.started() as u8, e.cov, e.corrupt as u8, e.clobbered_by));
         }
         s.push_str(&format!("stale={:032x}", fp128(&self.stale[20..])));
         s
@@ -279,6 +283,12 @@ impl Harness for S2 {
                 v.push((Ev::Echo(1), 0));
             }
             v.push((Ev::Echo(2), 0));
+            if self.net.eth {
+                if !self.core {
+                    v.push((Ev::EchoB(1), 0));
+                }
+                v.push((Ev::EchoB(2), 0));
+            }
         }
         for n in 0..2u8 {
             if self.net.dev.tx_budget != Some(n as usize) {
@@ -334,6 +344,13 @@ impl Harness for S2 {
                 let data = pattern(n - 8, salt);
                 let img = self.net.inject_echo_request(0x7000 + size as u16, 0x4242, size as u16, &data);
                 self.tr.expect(Exp::new(Kind::Reply, label, PROTO_ICMP, img, true));
+            }
+            Ev::EchoB(size) => {
+                let n = self.ip_payload_len(size);
+                let (label, salt) = self.fresh_label(Kind::Reply, size);
+                let data = pattern(n - 8, salt);
+                let img = self.net.inject_echo_request_from(PEER_B_IP, PEER_B_MAC, 0x7100 + size as u16, 0x4243, size as u16, &data);
+                self.tr.expect(Exp::new(Kind::Reply, label, PROTO_ICMP, img, true).to(PEER_B_IP));
             }
             Ev::Quiesce => {
                 self.net.dev.tx_budget = None;
@@ -432,8 +449,8 @@ pub(crate) fn run_s2(rep: &mut Report, tier: Tier) {
         "s2",
         json!({"alphabet": ["Send{sock in udp0,udp1,raw; size in no-frag(18B IP payload), 2 fragments, 3 fragments}", "Poll", "Egress (one poll_egress pass)",
             "Ingress (poll_ingress_single until empty; enabled when frames are queued)", "Bp(0|1) (device refuses transmit after n frames)", "BpOff",
-            "Echo(2|3) (inbound fragmented echo request whose reply needs 2|3 fragments; enabled when the rx queue is empty)", "Quiesce (terminal: lift back-pressure, poll to quiescence, end-of-run oracle)"],
-            "oracle": "per captured frame: <= MTU, header checksum, belongs to exactly one outstanding datagram (bound by id), bytes identical at its offset, MF consistent, no overlap/duplicate; at Quiesce: every datagram accepted by send() and every datagram whose first fragment appeared is complete exactly once; echo replies may be absent as a whole",
+            "Echo(2|3) (inbound fragmented echo request whose reply needs 2|3 fragments; enabled when the rx queue is empty)", "EchoB(2|3) (Ethernet configurations: the same request from a second pre-resolved neighbour B = 10.0.0.3 / 02:00:00:00:00:03, the reply goes to B)", "Quiesce (terminal: lift back-pressure, poll to quiescence, end-of-run oracle)"],
+            "oracle": "per captured frame: <= MTU, header checksum, on Ethernet link-layer destination = hardware address of the neighbour owning the IP destination, belongs to exactly one outstanding datagram (bound by id), bytes identical at its offset, MF consistent, no overlap/duplicate; at Quiesce: every datagram accepted by send() and every datagram whose first fragment appeared is complete exactly once; echo replies may be absent as a whole",
             "fingerprint": "verif_digest (identification counter/ids stripped) + SocketSet Debug + device budget + rx queue + outstanding-datagram model + stale fragmentation buffer image",
             "socket_tx_capacity": "2 datagrams / 512 bytes per socket; send() refusals are real (BufferFull) and leave the state unchanged"}),
     );
